@@ -6,13 +6,14 @@ ROOT = os.path.dirname(os.path.dirname(os.path.abspath(__file__)))
 plan = json.load(open(os.path.join(ROOT, "contracts", "plan.json")))
 ids = sys.argv[1:] or sorted(os.listdir(os.path.join(ROOT, "seeded")))
 confirm = {}
-if os.path.exists("/var/tmp/seedconfirm.log"):
-    for ln in open("/var/tmp/seedconfirm.log"):
-        m = re.match(r"RESULT (C\d\d)_([AB]) (.*)", ln)
-        if m: confirm[f"{m.group(1)}-{m.group(2)}"] = m.group(3).strip()
+for lg in ("/var/tmp/seedconfirm.log", "/var/tmp/seedconfirm2.log"):
+    if os.path.exists(lg):
+        for ln in open(lg):
+            m = re.match(r"RESULT (C\d\d(?:r2)?)_([AB]) (.*)", ln)
+            if m: confirm[f"{m.group(1)}-{m.group(2)}"] = m.group(3).strip()
 for sid in ids:
     d = os.path.join(ROOT, "seeded", sid)
-    prop = sid.split("-")[0]
+    prop = sid[:3]
     scratch = f"/var/tmp/seedeval.{os.getpid()}"
     shutil.rmtree(scratch, ignore_errors=True)
     subprocess.run(["rsync", "-a", "--exclude", "target", "--exclude", ".git", "/repo/", scratch + "/"], check=True)
